@@ -6,13 +6,15 @@
 // Ops (decimal ids; node spec = true | false | surface k | negated n | aliased n |
 //      join and|or n1 n2 ...):
 //   reset | dump | insert <spec> | exchange n <spec> | volume n | simplify n | simplifyup s |
-//   simplifyall s | replace key T|F | demorgan | postfix n | postfixm n | flag n | infix n |
+//   simplifyall s | replace key T|F | demorgan | demorganx (no precondition check, forked) | postfix n | postfixm n | flag n | infix n |
 //   eval n <hexbits> | evalpost n <hexbits> | tt n k | ttpost n k | logic <tok...> ; <hexbits>
 //   infixlogic <tok...> ; <hexbits>   (tok also `(` `)`; explicit infix grammar only)
 //   infixof n | ttinfix n k           (infix encoding of a node by the harness' own encoder --
 //                                      there is no C++ builder -- evaluated by the REAL InfixEvaluator)
 // Tree-changing ops answer "<result> # <dump>".
 #include <algorithm>
+#include <sys/wait.h>
+#include <unistd.h>
 #include <exception>
 #include <optional>
 #include <variant>
@@ -469,6 +471,57 @@ int main()
                     {
                         out = "error bad-variant # " + dump(tree);
                     }
+                }
+            }
+            else if (w.size() == 1 && w[0] == "demorganx")
+            {
+                // transform_negated_joins WITHOUT the documented precondition (alias nodes,
+                // alias chains, double negations allowed).  The release build has no
+                // assertions: a null id reaching CsgTree::insert is undefined behaviour, so the
+                // call is first tried in a forked child; only if the child survives is it
+                // repeated here (the transformation is deterministic).
+                std::cout.flush();
+                pid_t pid = fork();
+                if (pid == 0)
+                {
+                    int rc = 0;
+                    try
+                    {
+                        CsgTree result = transform_negated_joins(tree);
+                        rc = (result.size() >= 2) ? 0 : 4;
+                    }
+                    catch (std::bad_variant_access const&)
+                    {
+                        rc = 3;
+                    }
+                    catch (...)
+                    {
+                        rc = 5;
+                    }
+                    _exit(rc);
+                }
+                int status = 0;
+                if (pid < 0 || waitpid(pid, &status, 0) < 0)
+                {
+                    out = "error fork # " + dump(tree);
+                }
+                else if (WIFSIGNALED(status))
+                {
+                    out = "error crash # " + dump(tree);
+                }
+                else if (WEXITSTATUS(status) == 3)
+                {
+                    out = "error bad-variant # " + dump(tree);
+                }
+                else if (WEXITSTATUS(status) != 0)
+                {
+                    out = "error exception # " + dump(tree);
+                }
+                else
+                {
+                    CsgTree result = transform_negated_joins(tree);
+                    tree = std::move(result);
+                    out = "ok # " + dump(tree);
                 }
             }
             else if (w.size() == 2
